@@ -32,6 +32,28 @@ CHECKS = {
             "Spec({D_Reflag}) so every other difference is reported.",
             "Trusted: TLC, Json module, ref/avp_dictionary.json as the dictionary K, the 15-line generator-side encoder "
             "(its output is re-decoded by TLC; a malformed stream is a machinery error).", "4 C02"),
+    "C03": ("TLA+ total decoder DecMsgs / WellFormed (spec/Wire.tla): TLC evaluates it on every small byte string and generates the "
+            "structured corruptions (all truncation points, every length field x boundary values, flag flips) of real message "
+            "streams with their verdicts; the real decoder runs each under a step bound and must end cleanly; malformed segments "
+            "are injected into a live association under the deterministic scheduler (C03b)",
+            "Thousands of TLC-generated corruptions plus random garbage/mutations, each decoded within 2000+400n+4n^2 traced lines "
+            "with a clean outcome; live-node injection in every connection state.",
+            "Trusted: TLC, the line-counting tracer, engine/vsched.py. A clean outcome is a list of messages or an exception class "
+            "of bromelia/exceptions.py.", "4 C03"),
+    "C06": ("TLA+ state machine spec/Psm.tla (one action per tick + environment events) model-checked by TLC for both roles until "
+            "the reachable set closes: 11 action properties + ClosedImpliesReleased; four historic deviations shown to violate "
+            "them; the dumped state graph covered by edge-covering tours on the real threaded node under a deterministic "
+            "scheduler (state machine thread advanced tick by tick), projection compared with TLC successors after every step",
+            "Every (state, event) group of the closed model (all 14 message values, local stop, peer disconnect, idle timeout, "
+            "connect ack/nack, restart) is executed on a real Diameter object with all its threads.",
+            "Trusted: TLC, engine/vsched.py (scheduler, fake socket/selector, timer rule), adapters/node.py. Receive queue bound "
+            "1 (quick) / 2 (thorough) for the toured graph; bound 2 model-checked in both tiers.", "4 C06"),
+    "C07": ("Same specification and binding as C06 (spec/Psm.tla, property AnswersEcho and per-step output), configured with two "
+            "identifier values mapped to boundary Hop-by-Hop/End-to-End pairs, receive queue 2, restart on the same node object; "
+            "emitted CEA/DWA/DPA decoded from the bytes written to the fake socket",
+            "Back-to-back answerable requests with different identifiers, mixed with application traffic, in every state that "
+            "answers them, across reconnects; quick tier tours 2500 steps per role, thorough tier the whole graph.",
+            "Trusted: as C06.", "4 C07"),
     "C09": ("TLA+ operator Build over the typed command table (spec/Dict.tla); TLC enumerates argument subsets per class "
             "and checks table invariants; real constructors driven with in-domain values and compared; recorded random "
             "constructions validated by TLC",
